@@ -5,6 +5,7 @@ import os
 from common import VERIF, CorrResult, Failure, run_check
 import sandboxexec_common as sx
 import sandboxexec_sizes as sz
+import sandboxexec_dims as dm
 from translate_sandbox import translate
 
 RULE_CORR = ("histories of 1-6 executions on one sandbox: every builtin exception class, user subclasses of "
@@ -25,8 +26,19 @@ RULE_CORR = ("histories of 1-6 executions on one sandbox: every builtin exceptio
              "arguments are swept over the values just below, at, just above, at half and at twice each limit, plus 0 "
              "and one LARGE value per dimension; PLUS what the rendering is handed (30 message values, 13 class names, "
              "12 positions of a hand-made SyntaxError, 21 exceptions with constructor arguments / notes / causes / "
-             "groups); default, HTML and text formatter; inputs queued by set_input or by inputs=; real = pedal.sandbox.commands on MAIN_REPORT, model = Pedal.SandboxExec.runObserved via the "
-             "driver; non-trivial = history containing a failing execution")
+             "groups); default, HTML and text formatter; inputs queued by set_input or by inputs=; PLUS "
+             "(sandboxexec_dims.py) odd exception OBJECTS (falsy / zero-length / equal to everything or to None / "
+             "unequal to themselves / unhashable instances, odd __iter__ __getitem__ __contains__ __format__ __dir__ "
+             "__reduce__ __copy__ __lt__ __call__ __int__ __slots__ __new__ __init__, truth test raising or returning "
+             "nonsense) through run / call / evaluate, also after a successful call; THREADED executions that end by "
+             "themselves (sandbox.threaded = True, threaded=True passed, only the imports threaded; allowed_time far "
+             "beyond need) for the termination sweep, imports of a second student file in particular; NESTED "
+             "executions on one sandbox (student code reaching a mocked builtin / a function in its namespace / the "
+             "input callable that runs call, evaluate or run on the same sandbox; depth 2 and 3; inner and outer "
+             "ending normally, by Exception, SystemExit, BaseException propagating or caught, compile failure; one or "
+             "two inner executions; threaded or not); real = pedal.sandbox.commands on MAIN_REPORT, model = "
+             "Pedal.SandboxExec.runObserved / runObservedN via the driver (threaded executions are compared with the "
+             "model's unthreaded answer); non-trivial = history containing a failing execution")
 
 
 def corpus_cases(prop):
@@ -52,12 +64,26 @@ def histories(prop, rng, tier):
         hs += sweep
     # the size dimension: every limit constant of the recording / rendering path, read from the tree under test
     hs += sz.sized_histories(rng, tier)
-    snippets = sx.failing_snippets(rng)
+    # odd exception objects, threaded executions that end by themselves, nested executions on one sandbox
+    hs += dm.odd_exception_histories(rng, tier)
+    hs += dm.threaded_histories(rng, tier, sweep)
+    hs += dm.nested_histories(rng, tier)
+    snippets = sx.failing_snippets(rng) + dm.odd_exception_snippets()
     sized = [s for s in sz.sized_snippets(rng) + sz.rendering_snippets() if not s.get("slow")]
     n = 60 if tier == "quick" else 4000
     for _ in range(n):
-        hs.append(sx.gen_history(rng, snippets, sized=sized))
+        hs.append(random_history(rng, snippets, sized))
     return hs
+
+
+def random_history(rng, snippets, sized, inject_rate=0.06):
+    r = rng.random()
+    if r < 0.15:
+        return dm.random_nested_history(rng)
+    h = sx.gen_history(rng, snippets, inject_rate=inject_rate, sized=sized)
+    if r < 0.40 and not any(op.get("size") for op in h):
+        h = dm.threaded(h, rng.choice(dm.THREAD_MODES))
+    return h
 
 
 ESSENTIAL_SHAPES = {
@@ -96,22 +122,31 @@ def make(prop, theorems, *, model_notes=None, refuted_full=None, driver_exe=None
             model = sx.parse_answer(ans)
             res.evaluations += 1
             res.count("ops=%d" % len(ops))
-            for op in ops:
+            for op in sx.walk_ops(ops):
                 res.count("entry:" + op["entry"])
-                res.count("style:" + op["style"])
+                res.count("style:" + str(op["style"]))
                 res.count("term:" + op["term"][0] + (":inject" if op.get("inject") else ""))
-            if any(op["term"][0] != "N" for op in ops):
+                if op.get("threaded"):
+                    res.count("threaded:" + op["threaded"])
+            if any(sx.has_inner(op) for op in ops):
+                res.count("nested-executions:depth=%d" % sx.nesting_depth(ops))
+            if any(op["term"][0] != "N" for op in sx.walk_ops(ops)):
                 res.nontrivial.add(line)
-            if model is None or len(model) != len(obs):
+            flat = sx.flatten(ops, obs)
+            if model is None or len(model) != len(flat):
                 res.disagreements.append({"case": {"ops": ops}, "real": obs, "model": ans[:200],
-                                          "fields": ["bad-request"], "request": line})
+                                          "fields": ["bad-request" if model is None else "number-of-executions"],
+                                          "request": line})
                 continue
-            for i, (o, m) in enumerate(zip(obs, model)):
-                d = sx.compare_op(prop, o, m, ops[i])
+            top = -1
+            for (op, o, level), m in zip(flat, model):
+                if level == 0:
+                    top += 1
+                d = sx.compare_op(prop, o, m, op)
                 if d:
-                    res.disagreements.append({"case": {"ops": ops[:i + 1]}, "real": o, "model": m,
-                                              "fields": d, "op_index": i, "shape": ops[i]["shape"],
-                                              "request": line})
+                    res.disagreements.append({"case": {"ops": ops[:top + 1]}, "real": o, "model": m,
+                                              "fields": d, "op_index": top, "nesting_level": level,
+                                              "shape": op["shape"], "request": line})
                     break
         res.samples = [{"ops": [{k: v for k, v in op.items() if k != "code"} for op in ops]} for ops, _ in runs[-2:]]
         res.runs = runs
@@ -131,10 +166,13 @@ def make(prop, theorems, *, model_notes=None, refuted_full=None, driver_exe=None
 
         def consider(ops, obs):
             info["evaluations"] += 1
-            if any(op["term"][0] != "N" for op in ops):
+            if any(op["term"][0] != "N" for op in sx.walk_ops(ops)):
                 nt.add(sx.request_line(ops))
             failed_at = {}
-            for idx, sig, what in sx.failures_in(prop, ops, obs):
+            found = sx.failures_in(prop, ops, obs)
+            if any("threaded" in sig for _, sig, _ in found):
+                found = untag_threaded(found, ops)
+            for idx, sig, what in found:
                 key = json.dumps(sig, sort_keys=True)
                 failed_at[idx] = key
                 if key in seen:
@@ -153,6 +191,27 @@ def make(prop, theorems, *, model_notes=None, refuted_full=None, driver_exe=None
             for idx, op in enumerate(ops):
                 if op.get("size"):
                     sizes_seen.setdefault((failed_at.get(idx), op["size"]["dim"]), set()).add(op["size"]["n"])
+
+        def untag_threaded(found, ops):
+            """`threaded` in a signature means: ONLY when threaded.  If the same execution fails the same way
+            without a thread, it is reported under the signature without the tag."""
+            import copy
+            plain = copy.deepcopy(ops)
+            for op in sx.walk_ops(plain):
+                op.pop("threaded", None)
+            try:
+                plain_found = {(i, json.dumps(sig, sort_keys=True)) for i, sig, _ in
+                               sx.failures_in(prop, plain, sx.run_history(plain))}
+            except Exception:
+                return found
+            out = []
+            for idx, sig, what in found:
+                bare = {k: v for k, v in sig.items() if k != "threaded"}
+                if "threaded" in sig and (idx, json.dumps(bare, sort_keys=True)) in plain_found:
+                    out.append((idx, bare, what))
+                else:
+                    out.append((idx, sig, what))
+            return out
 
         def add_size_ranges():
             """Where a failure is one of the size dimension: between which sizes does it start?"""
@@ -179,14 +238,15 @@ def make(prop, theorems, *, model_notes=None, refuted_full=None, driver_exe=None
         if broken or not getattr(corr, "runs", None):
             sx.warm_up()
             extra += sx.coverage_histories(rng)
-        snippets = sx.failing_snippets(rng)
+        snippets = sx.failing_snippets(rng) + dm.odd_exception_snippets()
         sized = [s for s in sz.sized_snippets(rng) + sz.rendering_snippets() if not s.get("slow")]
         n = 40 if tier == "quick" else 1500
         if broken:
             n *= 3
             extra += sz.sized_histories(rng, "thorough" if tier != "quick" else "quick")
+            extra += dm.nested_histories(rng, tier) + dm.odd_exception_histories(rng, tier)
         for _ in range(n):
-            extra.append(sx.gen_history(rng, snippets, inject_rate=0.1, sized=sized))
+            extra.append(random_history(rng, snippets, sized, inject_rate=0.1))
         for ops in extra:
             if len(failures) >= 8:
                 break
